@@ -312,11 +312,15 @@ package fiber
 //@   props C01 C02
 //@   panics
 //@   requires lock-free: !held(app.mutex)
-//@   requires positions-left: app.routesCount < 4294967295
+//@   assumes positions-left: app.routesCount < 4294967295   // environment: fewer than 2^32 registrations in the life of an app
+//@   modifies app.routesCount, app.routesRefreshed, app.latestRoute, elems(app.stack), heap(E_p_fiber_Route), Route.Handlers, heap(E_fiber_Handler), route.pos, route.Method
 //@   requires method-valid: 0 <= methodIdx(app, method, epoch) && methodIdx(app, method, epoch) < len(app.stack)
 //@   requires route-given: route != nil && forall(i, 0, len(app.stack[methodIdx(app, method, epoch)]), app.stack[methodIdx(app, method, epoch)][i] != nil)
 //@   ensures merged-only-same-registration: len(app.stack[methodIdx(app, method, epoch)]) == old(len(app.stack[methodIdx(app, method, epoch)])) <==> mergeable(app, methodIdx(app, method, epoch), route)
 //@   ensures appended-with-next-position: !mergeable(app, methodIdx(app, method, epoch), route) ==> len(app.stack[methodIdx(app, method, epoch)]) == old(len(app.stack[methodIdx(app, method, epoch)])) + 1 &&
 //@ ..    app.stack[methodIdx(app, method, epoch)][old(len(app.stack[methodIdx(app, method, epoch)]))] == route && route.pos == old(app.routesCount) + 1 && app.routesCount == old(app.routesCount) + 1
+//@   ensures other-method-stacks-kept: forall(m, 0, len(app.stack), m != methodIdx(app, method, epoch) ==> app.stack[m] == old(app.stack[m]))
+//@   ensures at-most-one-position-used: app.routesCount <= old(app.routesCount) + 1
+//@   ensures entries-stay-non-nil: forall(i, 0, len(app.stack[methodIdx(app, method, epoch)]), app.stack[methodIdx(app, method, epoch)][i] != nil)
 //@   ensures merged-handlers-appended: mergeable(app, methodIdx(app, method, epoch), route) ==> len(lastOf(app, methodIdx(app, method, epoch)).Handlers) == old(len(lastOf(app, methodIdx(app, method, epoch)).Handlers)) + old(len(route.Handlers))
 //@   ensures merge-never-writes-shared-array: mergeable(app, methodIdx(app, method, epoch), route) && old(len(route.Handlers)) > 0 ==> !wasAllocated(arr(lastOf(app, methodIdx(app, method, epoch)).Handlers))
